@@ -20,6 +20,7 @@ fn main() {
         "replay-masm" => exec::replay_masm(a(2), a(3)),
         "record-vm" => record::record_vm(a(2), a(3)),
         "air-check" => air::air_check(a(2), a(3)),
+        "air-perturb" => air::air_perturb(a(2), a(3)),
         "pipeline" => pipeline::pipeline(a(2), a(3)),
         "codec" => codec::codec(a(2), a(3), a(4).parse().unwrap_or(0)),
         "ctors" => codec::ctors(a(2), a(3)),
